@@ -1,7 +1,7 @@
 (* Dispatch.v -- single entry point of the executable model: opcode * argument -> result.
    Used identically by the extracted OCaml driver and by in-Coq vm_compute samples. *)
 From Coq Require Import List ZArith.
-From Yv Require Import Base.Sx Run.RunSym Run.RunGeom Run.RunCache Run.RunTrunc Run.RunStruct Run.RunBlock Run.RunFermi Run.RunFusion Run.RunSerial Run.RunLinalg Run.RunMps Run.RunCanon Run.RunKrylov.
+From Yv Require Import Base.Sx Run.RunSym Run.RunGeom Run.RunCache Run.RunTrunc Run.RunStruct Run.RunBlock Run.RunFermi Run.RunFusion Run.RunSerial Run.RunLinalg Run.RunMps Run.RunCanon Run.RunKrylov Run.RunSweep.
 Import ListNotations.
 Open Scope Z_scope.
 
@@ -35,6 +35,8 @@ Definition run (op : Z) (arg : sx) : sx :=
   | 122 => run_expmv_init arg
   | 123 => run_expmv_ncv arg
   | 124 => run_krylov_dims arg
+  | 130 => run_sweep_trace arg
+  | 131 => run_prog_ops arg
   | _ => sErr 999
   end.
 
